@@ -114,6 +114,12 @@ fn format_extraction<TCompilationProfile: CompilationProfile>(
         let new_line_behavior = token.item.line_behavior;
         let indent_change = token.item.indent_change;
 
+        if !new_line_behavior.should_keep() {
+            // A removed token (e.g. a comma) must not affect line breaks or spacing;
+            // otherwise `},` leaves a whitespace-only line that the next format drops.
+            continue;
+        }
+
         if let IndentChange::Dedent = indent_change {
             indent -= 1;
         }
